@@ -194,7 +194,7 @@ __CPROVER_ensures(IMPLIES(RPW_CRC_DUE(f),
 #define RPW_PF_RAW(fb) ((fb)->data + sizeof(RPFrame))
 #define RPW_PF_N(fb) ((fb)->used - sizeof(RPFrame))
 #define RPW_PF_HLEN(fb) SPEC_HLEN(SPEC_F_OPTS(RPW_PF_RAW(fb)))
-#define REGP_PF_MAX (16u + CRC_NMAX)
+#define REGP_PF_MAX (12u + CRC_NMAX)
 /* the ghost trace describes the checksum of the octets behind the header the
  * option bits announce (established by the caller; a trace exists for every
  * content) */
